@@ -9,6 +9,8 @@ import (
 	"strconv"
 	"strings"
 	"time"
+
+	"golang.org/x/tools/go/ssa"
 )
 
 func main() {
@@ -55,6 +57,7 @@ func cmdRun(args []string) int {
 	trace := fs.Bool("trace", false, "trace instructions")
 	panicV := fs.Bool("panic-violation", true, "uncaught panic is a violation")
 	goroutines := fs.Bool("goroutines", false, "goroutine mode")
+	overrides := fs.String("override", "", "target=harnessFunc,...")
 	fs.Parse(args)
 	t0 := time.Now()
 	ov, _, err := harnessOverlay(*pkg, strings.Split(*files, ","))
@@ -73,8 +76,28 @@ func cmdRun(args []string) int {
 		fmt.Fprintln(os.Stderr, "no function", *fn)
 		return 2
 	}
+	var setup func(i *interpreter)
+	if *overrides != "" {
+		ovs := map[string]string{}
+		for _, kv := range strings.Split(*overrides, ",") {
+			p := strings.SplitN(kv, "=", 2)
+			if len(p) == 2 {
+				ovs[p[0]] = p[1]
+			}
+		}
+		setup = func(i *interpreter) {
+			i.overrides = map[string]*ssa.Function{}
+			for target, repl := range ovs {
+				g := ld.pkg.Func(repl)
+				if g == nil {
+					panic("override function not found: " + repl)
+				}
+				i.overrides[target] = g
+			}
+		}
+	}
 	ex := NewExplorer(ld.prog, ExploreConfig{Harness: *fn, Pkg: ld.pkg, Fn: f, Params: parseParams(*params), Workers: *workers,
-		MaxSteps: *maxSteps, MaxPaths: *maxPaths, Trace: *trace, PanicIsViolation: *panicV, Goroutine: *goroutines})
+		MaxSteps: *maxSteps, MaxPaths: *maxPaths, Trace: *trace, PanicIsViolation: *panicV, Goroutine: *goroutines, Setup: setup})
 	if err := ex.Run(); err != nil {
 		fmt.Fprintln(os.Stderr, err)
 		return 2
